@@ -327,12 +327,16 @@ structure FRep where
   enqs : List (Nat × Int) := []            -- (tag, offset) in recorded order
   accepts : List (Nat × Int) := []         -- accepted messages (tag, offset) in order
   pendSet : Option Int := none             -- a SetOffset that must be followed by a start at this offset
+  pos : Option Int := none                 -- r.offset (`Reader.Offset()`) as the API model `astep` tracks it
   bad : Option String := none
   prop : Bool := false
 
 def ffail (r : FRep) (p : Bool) (why : String) : FRep := if r.bad.isSome then r else { r with bad := some why, prop := p }
 
-def fReplay (first hwm : Int) (r : FRep) (e : FTEv) : FRep :=
+/-- the offset of the first stored record at or above `pos` (`ASpec`, `reader_api`) -/
+def firstAtOrAbove (l : List Rec) (pos : Int) : Option Int := (l.find? (fun x => pos ≤ x.1)).map (·.1)
+
+def fReplay (first hwm : Int) (all final : List Rec) (r : FRep) (e : FTEv) : FRep :=
   if r.bad.isSome then r else
   match e with
   | .start v o =>
@@ -340,6 +344,7 @@ def fReplay (first hwm : Int) (r : FRep) (e : FTEv) : FRep :=
     let r1 := match r.pendSet with
       | some p => if p = o then { r with pendSet := none } else ffail r false s!"start at {o} after SetOffset({p})"
       | none => r
+    let r1 := if r1.pos.isNone then { r1 with pos := some o } else r1          -- the lazy start is at r.offset
     if v = r.version + 1 then { r1 with version := v, starts := r1.starts ++ [(v, o')] }
     else ffail r1 false s!"fetcher started with tag {v}, previous version {r.version}"
   | .enq v off =>
@@ -348,12 +353,26 @@ def fReplay (first hwm : Int) (r : FRep) (e : FTEv) : FRep :=
     if isErr then r
     else if mver < ver then ffail r true s!"FetchMessage returned message {off} with stale tag {mver} < {ver}"
     else if mver != r.version then ffail r true s!"FetchMessage returned message {off} of fetcher {mver}, current version {r.version}"
-    else { r with accepts := r.accepts ++ [(mver, off)] }
+    else
+      -- `reader_api`: FetchMessage returns the first stored record at or above Offset(), Offset() becomes its offset + 1
+      let r := match r.pos with
+        | some p =>
+          if p != -1 && firstAtOrAbove all p != some off && firstAtOrAbove final p != some off then
+            ffail r true s!"FetchMessage returned {off}; Offset() was {p}, the first stored record at or above it is {firstAtOrAbove final p}"
+          else r
+        | none => r
+      { r with accepts := r.accepts ++ [(mver, off)], pos := some (off + 1) }
   | .drop ver mver => if mver < ver then r else ffail r false s!"message with tag {mver} dropped by a call that captured version {ver}"
   | .setOffset o roff v closed =>
     if closed then r
-    else if o = roff || v = 0 then r               -- no-op / lazy start
-    else { r with pendSet := some o }
+    else
+      -- Offset() as the model tracks it is what the code holds in r.offset
+      let r := match r.pos with
+        | some p => if p != roff then ffail r false s!"SetOffset({o}): r.offset is {roff}, the API model's Offset() is {p}" else r
+        | none => r
+      let r := { r with pos := some (if o = roff then roff else o) }
+      if o = roff || v = 0 then r               -- no-op / lazy start
+      else { r with pendSet := some o }
 
 /-- every fetcher enqueues, in order, the stored records at or above its start offset; what FetchMessage accepted from
 a fetcher is a prefix of what that fetcher enqueued -/
@@ -458,7 +477,7 @@ def step (line : String) : String :=
           let final := match (field ws "truncn").bind (·.toNat?) with
             | some tn => allRecords (items.drop tn)
             | none => all
-          let r := fCheck all final ((evs.filterMap id).foldl (fReplay first hwm) {})
+          let r := fCheck all final ((evs.filterMap id).foldl (fReplay first hwm all final) {})
           match r.bad with
           | none => answer "ok" true
           | some why => answer s!"rejected: {why}" (!r.prop)
